@@ -31,12 +31,12 @@ type Replay struct {
 }
 
 type failGroup struct {
-	Sig    string  `json:"sig"`
-	Clause string  `json:"clause"`
-	Count  int     `json:"count"`
+	Sig    string   `json:"sig"`
+	Clause string   `json:"clause"`
+	Count  int      `json:"count"`
 	Seeds  []uint64 `json:"seeds"`
-	Replay *Replay `json:"replay,omitempty"`
-	Known  bool    `json:"known"`
+	Replay *Replay  `json:"replay,omitempty"`
+	Known  bool     `json:"known"`
 }
 
 // WorkerOut is what one worker process reports to the driver.
